@@ -366,6 +366,32 @@ def job_api(j):
                     if df:
                         bad(f'api:documented-reading/{fam}/read_{kind}/{tname(s)}' + ('/two-consumers-at-once' if len(sts) > 1 else ''), s.id_,
                             f'read_{kind}({s.id_!r}) @{s.offset} = {own.hex()}: {df} ({order}' + (f', consumer {ci + 1} of 2)' if len(sts) > 1 else ')'), 2)
+    # a setting the application wrote itself: afterwards somebody else (the vendor's app, the inverter) changes the register;
+    # what read_setting() reports next is the reading of the register as it is then - at once, and once more
+    if cfg.get('singles') and fam != 'ES':
+        world.reset()
+        r = make_rig(cfg, transport, fill=api_fill(2, seed))
+        inv = r.inv
+        if r.call(inv.read_device_info)[0] == 'ok':
+            for s in [x for x in inv.settings() if own_span(x) and refdec.size_of(x) <= 2 and tname(x) not in ('ByteH', 'ByteL')]:
+                st0 = r.call(inv.read_setting, s.id_)
+                if st0[0] != 'ok' or st0[1] is None:
+                    continue
+                if r.call(inv.write_setting, s.id_, st0[1])[0] != 'ok':
+                    continue
+                for other in (r.dev.rf.get(s.offset) ^ 0x0003, 7):
+                    r.dev.rf.set(s.offset, other)
+                    st = r.call(inv.read_setting, s.id_)
+                    if st[0] != 'ok':
+                        continue
+                    own = r.dev.rf.getbytes(s.offset, 1)[:refdec.size_of(s)]
+                    ref = refdec.decode(s, own)
+                    got = ('ValueError', '') if (st[1] is None and ref is refdec.NOVALUE) else ('value', st[1])
+                    n += 1
+                    df = compare(s, got, ref)
+                    if df:
+                        bad(f'api:documented-reading/{fam}/read_setting/{tname(s)}/after-writing-it', s.id_,
+                            f'read_setting({s.id_!r}) @{s.offset} = {own.hex()} after write_setting({s.id_!r}, {st0[1]!r}) and a change of the register: {df}', 2)
     res = []
     for key, lst in vio.items():
         lst[0]['n'] = len(lst)
